@@ -1271,8 +1271,32 @@ func TestVerifC03(t *testing.T) {
 	}
 
 	// non-canonical and malformed TBSCertificates
-	for i, n := 0, verifkit.N(12, 200); i < n; i++ {
+	for i, n := 0, verifkit.N(12, 120); i < n; i++ {
 		x.variantCases(fams[i%3].root[i%2])
 	}
+	x.leanExamples()
 	out.Add("cases:route-pairs", int64(x.n))
+}
+
+// leanExamples replays the concrete TBSCertificates of the non-vacuity examples in lean/CTV/Props/C03.lean on the real code.
+func (x *runner) leanExamples() {
+	unhex := func(s string) []byte { b, _ := hex.DecodeString(s); return b }
+	base, ok := splitTBS(unhex("303fa003020102020105300506032b65703000301e170d3330303130313030303030305a170d3439313233313233353935395a3000300a300506032b6570030100"))
+	if !ok {
+		x.out.Fail("lean-examples", "base does not split")
+		return
+	}
+	ku := mkExt([]byte{0x55, 0x1d, 0x0f}, true, []byte{3, 2, 7, 0x80})
+	aki := mkExt(oidAKI, false, []byte{0x30, 3, 0x80, 1, 7})
+	poison := mkExt(oidPoison, true, []byte{5, 0})
+	sct := mkExt(oidSCT, false, []byte{4, 6, 0, 4, 0, 2, 0xaa, 0xbb})
+	for _, e := range [][][]byte{{ku, poison}, {poison, ku, poison}, {poison}, {}, {poison, ku}, {ku, sct}, {ku, aki, poison}, {aki, poison}} {
+		tbs := base.withExts(e).assemble()
+		c := x.opCanon(tbs)
+		x.opBuild(tbs, nil, c)
+		x.opRemove("sct", tbs, c)
+		x.out.Count("class:lean-example")
+	}
+	c := x.opCanon(base.assemble())
+	x.opBuild(base.assemble(), nil, c)
 }
